@@ -28,11 +28,21 @@ def scan_assumptions(kunits, vunits):
             ("assume(", r"(?<![\w:])assume\s*\("), ("admit", r"\badmit\s*\("),
             ("external_body", r"external_body"), ("assume_specification", r"assume_specification"),
             ("external_fn_specification", r"external_fn_specification"), ("axiom", r"\baxiom"),
+            ("uninterp spec fn", r"\buninterp\s+spec\s+fn"),
             ("unsafe", r"\bunsafe\b")]
+    # extraction directives that replace real text by a trusted call or drop it (E6, E7, E8, decisive mode)
+    dpats = [("E6 opaque expression", r"^//@opaque\s"), ("E8 opaque block", r"^//@opaqueblock\s"),
+             ("E7 format! dropped", r"fmtdrop=yes"), ("decisive loops mode", r"^//@decisive\s")]
     files = [u.path for u in kunits] + [u.path for u in vunits]
     for f in files:
         for k, line in enumerate(open(f), 1):
             s = line.strip()
+            if s.startswith("//@"):
+                for name, pat in dpats:
+                    if re.search(pat, s):
+                        found.append(f"{os.path.relpath(f, VERIF)}:{k}: {name}: {s[:160]}")
+                        break
+                continue
             if s.startswith("//") and not s.startswith("//|"):
                 continue
             for name, pat in pats:
